@@ -150,7 +150,9 @@ impl JobSpec {
                 lines += b.0.iter().filter(|b| **b == b'\n').count() as u64 + 1;
             }
         }
-        20_000 + 50 * lines
+        // an include tree may deliver its files many times (up to the 10 000 inclusions the preprocessor
+        // allows since fix cad8344): 40 passes for each of them on top
+        20_000 + 50 * lines + if self.includes.is_empty() { 0 } else { 400_000 }
     }
     pub fn canonical_delivery(&self) -> bool {
         self.reader.is_canonical() && self.writer.is_canonical()
